@@ -7,7 +7,7 @@ patch=$(readlink -f "$1"); shift
 wt=$(mktemp -d /tmp/seedtry.XXXXXX)
 git -C /repo worktree add -q --detach "$wt" HEAD
 if ! git -C "$wt" apply "$patch"; then echo "PATCH DOES NOT APPLY"; git -C /repo worktree remove --force "$wt"; exit 2; fi
-cd /verif
+cd "$(dirname "$(readlink -f "$0")")/.."
 ev=$(mktemp -d /tmp/seedev.XXXXXX); cp -a evidence/. "$ev"/   # evidence must come from runs against /repo
 for c in "$@"; do
   echo "=== $c against $(basename "$patch")"
@@ -16,4 +16,4 @@ done
 git -C /repo worktree remove --force "$wt"
 cp -a "$ev"/. evidence/; rm -rf "$ev"
 # bring coq/Gen back to the real tree
-PYTHONPATH=/verif:/repo/src PYTHONHASHSEED=0 /venv/bin/python translator/gen.py --repo /repo > /dev/null
+PYTHONPATH=$PWD:/repo/src PYTHONHASHSEED=0 /venv/bin/python translator/gen.py --repo /repo > /dev/null
